@@ -71,8 +71,15 @@ def build(case, variant=0):
         synthetic=bool(variant),
         author=person(case["author"]),
         date=gitfmt.py_date(case["date"]),
-        metadata={"x": 1} if variant else None,
+        metadata=METADATA_VARIANTS[variant],
     )
+
+
+# metadata that must never reach the manifest — including keys that mean something elsewhere in the
+# library (the legacy place of a revision's extra headers, field names of the tag itself)
+METADATA_VARIANTS = [None, {"x": 1}, {"extra_headers": [[b"encoding", b"latin-1"], [b"gpgsig", b"a\nb"]]},
+                     {"message": "m", "author": {"fullname": b"X"}, "date": 1, "target": b"t", "name": b"n", "id": b"i", "raw_manifest": b"r"},
+                     {}]
 
 
 def expected_headers(case):
@@ -118,8 +125,20 @@ def check_cases(ctx, cases):
                 ctx.fail(case, "independent tag parser does not recover the fields", "parse-mismatch")
         except Exception as e:
             ctx.fail(case, f"independent tag parser fails: {type(e).__name__}", "parse-error")
-        if build(case, variant=1).id != rel.id:
-            ctx.fail(case, "synthetic/metadata/name/email influence the id", "non-tag-attribute-influences-id")
+        for variant in range(1, len(METADATA_VARIANTS)):
+            if build(case, variant=variant).id != rel.id:
+                ctx.fail(case, "synthetic/metadata/name/email influence the id", "non-tag-attribute-influences-id", {"metadata": repr(METADATA_VARIANTS[variant])[:200]})
+                break
+        # the (deprecated, still accepted) dictionary form of the argument gives the same manifest
+        import warnings
+
+        with warnings.catch_warnings():
+            warnings.simplefilter("ignore")
+            try:
+                if git_objects.release_git_object(rel.to_dict()) != man:
+                    ctx.fail(case, "release_git_object gives another manifest for the dictionary form of the same release", "dict-form-differs")
+            except Exception as e:
+                ctx.fail(case, f"release_git_object rejects the dictionary form: {type(e).__name__}", "dict-form-raises")
         if case.get("gitlike"):
             body = man[man.index(b"\x00") + 1 :]
             try:
